@@ -150,11 +150,23 @@ def _fws_grammar(ginfo):
 def threeway(ctx, res, want_tokens, gid_filter=None, want_stack=False):
     """Shared oracle of C01 (verdict/offset), C02 (token tree) and C07 (same, on skip-relevant grammars)."""
     stats = {"pest_eq_spec": 0, "pest_panic": 0, "pest_ne_spec_stack": 0, "spec_oof": 0, "accepted": 0, "rejected": 0}
+    # the Spec's answer is computed by the driver on parse_partial cases; check_partial cases of the same
+    # (grammar, rule, input) are judged against the same answer (C03: the two paths must agree)
+    spec_of = {}
     for c, io, mo in res.rows():
-        if c[2] != "parse_partial" or c[3] != "str":
+        if c[2] == "parse_partial" and c[3] == "str" and "spec" in mo:
+            spec_of[(c[0], c[1], c[6])] = mo["spec"]
+    for c, io, mo in res.rows():
+        if c[2] not in ("parse_partial", "check_partial") or c[3] != "str":
             continue
         if gid_filter and not gid_filter(c[0]):
             continue
+        if c[2] == "check_partial":
+            if want_tokens and not want_stack:
+                continue
+            mo = dict(mo)
+            if (c[0], c[1], c[6]) in spec_of:
+                mo["spec"] = spec_of[(c[0], c[1], c[6])]
         ginfo = res.grammars[c[0]]
         spec = mo.get("spec")
         if spec is None:
